@@ -864,3 +864,382 @@ func init() {
 			return out
 		}})
 }
+
+// PARTIALFILL — a scratch vector of the object that is filled at indexes taken from data is reset first.
+//
+// `GetVectorCoefficient` hands out the evaluator's own `values` vector after writing the k-th coefficients at the
+// slots listed in the mapping. Without the reset loop in front, slots that the current mapping does not mention keep
+// the coefficient of the previous call (of another polynomial, or another k): the result depends on what the evaluator
+// did before.
+//
+// Rule: in a method that views a slice field of its receiver (`v = recv.f`, or uses recv.f directly) and stores into
+// it at an index that is the *value* variable of a range statement (an index read from data, not the position in v),
+// there is also a loop over that same slice (`for j := range v`, or a counted loop to len(v)) whose body stores v[j]
+// for its own loop variable — the reset of every element.
+func scanPartialFill(c *core.Ctx) []ob {
+	var out []ob
+	n := 0
+	c.FuncDecls(func(pk *packages.Package, file *ast.File, fd *ast.FuncDecl) {
+		if fd.Body == nil || fd.Recv == nil || fileIsTestSupport(c.Program, fd.Pos()) || inExamples(pk) {
+			return
+		}
+		if len(fd.Recv.List) == 0 || len(fd.Recv.List[0].Names) == 0 {
+			return
+		}
+		info := pk.TypesInfo
+		recv := info.Defs[fd.Recv.List[0].Names[0]]
+		if recv == nil {
+			return
+		}
+		// locals / named results that view a slice field of the receiver
+		views := map[types.Object]string{}
+		isRecvField := func(e ast.Expr) (string, bool) {
+			se, ok := unparen(e).(*ast.SelectorExpr)
+			if !ok {
+				return "", false
+			}
+			id, ok := unparen(se.X).(*ast.Ident)
+			if !ok || info.Uses[id] != recv {
+				return "", false
+			}
+			if _, isSl := info.TypeOf(se).Underlying().(*types.Slice); !isSl {
+				return "", false
+			}
+			return se.Sel.Name, true
+		}
+		ast.Inspect(fd.Body, func(x ast.Node) bool {
+			if as, ok := x.(*ast.AssignStmt); ok && len(as.Lhs) == len(as.Rhs) {
+				for i, l := range as.Lhs {
+					if id, ok := l.(*ast.Ident); ok {
+						if f, ok := isRecvField(as.Rhs[i]); ok {
+							o := info.Defs[id]
+							if o == nil {
+								o = info.Uses[id]
+							}
+							if o != nil {
+								views[o] = f
+							}
+						}
+					}
+				}
+			}
+			return true
+		})
+		fieldOf := func(e ast.Expr) (string, bool) {
+			if id, ok := unparen(e).(*ast.Ident); ok {
+				if f, ok := views[info.Uses[id]]; ok {
+					return f, true
+				}
+			}
+			return isRecvField(e)
+		}
+		// range value variables (indexes read from data)
+		dataIdx := map[types.Object]bool{}
+		ast.Inspect(fd.Body, func(x ast.Node) bool {
+			if rs, ok := x.(*ast.RangeStmt); ok && rs.Value != nil {
+				if id, ok := rs.Value.(*ast.Ident); ok {
+					if o := info.Defs[id]; o != nil {
+						if b, ok := o.Type().Underlying().(*types.Basic); ok && b.Info()&types.IsInteger != 0 {
+							dataIdx[o] = true
+						}
+					}
+				}
+			}
+			return true
+		})
+		sparse := map[string]ast.Node{}
+		full := map[string]bool{}
+		ast.Inspect(fd.Body, func(x ast.Node) bool {
+			switch v := x.(type) {
+			case *ast.AssignStmt:
+				for _, l := range v.Lhs {
+					ie, ok := unparen(l).(*ast.IndexExpr)
+					if !ok {
+						continue
+					}
+					f, ok := fieldOf(ie.X)
+					if !ok {
+						continue
+					}
+					if id, ok := unparen(ie.Index).(*ast.Ident); ok && dataIdx[info.Uses[id]] {
+						if sparse[f] == nil {
+							sparse[f] = v
+						}
+					}
+				}
+			case *ast.RangeStmt:
+				f, ok := fieldOf(v.X)
+				if !ok || v.Key == nil {
+					return true
+				}
+				kid, ok := v.Key.(*ast.Ident)
+				if !ok {
+					return true
+				}
+				ko := info.Defs[kid]
+				ast.Inspect(v.Body, func(y ast.Node) bool {
+					if as, ok := y.(*ast.AssignStmt); ok {
+						for _, l := range as.Lhs {
+							if ie, ok := unparen(l).(*ast.IndexExpr); ok {
+								if f2, ok := fieldOf(ie.X); ok && f2 == f {
+									if id, ok := unparen(ie.Index).(*ast.Ident); ok && info.Uses[id] == ko {
+										full[f] = true
+									}
+								}
+							}
+						}
+					}
+					return true
+				})
+			case *ast.ForStmt:
+				// for j := 0; j < len(v); j++ { v[j] = … }
+				if v.Cond == nil {
+					return true
+				}
+				var f string
+				okLen := false
+				ast.Inspect(v.Cond, func(y ast.Node) bool {
+					if call, ok := y.(*ast.CallExpr); ok {
+						if id, ok := unparen(call.Fun).(*ast.Ident); ok && id.Name == "len" && len(call.Args) == 1 {
+							if ff, ok := fieldOf(call.Args[0]); ok {
+								f, okLen = ff, true
+							}
+						}
+					}
+					return true
+				})
+				if !okLen {
+					return true
+				}
+				ast.Inspect(v.Body, func(y ast.Node) bool {
+					if as, ok := y.(*ast.AssignStmt); ok {
+						for _, l := range as.Lhs {
+							if ie, ok := unparen(l).(*ast.IndexExpr); ok {
+								if f2, ok := fieldOf(ie.X); ok && f2 == f {
+									full[f] = true
+								}
+							}
+						}
+					}
+					return true
+				})
+			}
+			return true
+		})
+		fkey := core.FuncKey(pk, fd)
+		for f, site := range sparse {
+			n++
+			key := fmt.Sprintf("PARTIALFILL:%s#%s", fkey, f)
+			if full[f] {
+				out = append(out, okOb("PARTIALFILL", key, c.Rel(site.Pos()), "every element of the scratch vector is reset by a loop over the vector itself", true))
+			} else {
+				out = append(out, violOb("PARTIALFILL", key, c.Rel(site.Pos()), fmt.Sprintf("%s stores into the receiver's vector %s at indexes read from data and has no loop that resets every element of it: the elements the current call does not mention keep what a previous call left there", fkey, f)))
+			}
+		}
+	})
+	c.Stats["partialfill_sites"] = n
+	return out
+}
+
+func init() {
+	core.Register(&core.Rule{Name: "PARTIALFILL", Props: []string{"C13", "C10", "C09"},
+		Doc: "a method that stores into a slice field of its receiver (directly or through a local view) at an index that is the value variable of a range statement also has a loop over that same slice storing at its own loop variable (the reset of every element)",
+		Run: func(c *core.Ctx) []ob {
+			out := scanPartialFill(c)
+			out = append(out, control(c, "PARTIALFILL", scanPartialFill, "(coefTable).Pick")...)
+			return out
+		}})
+}
+
+// PAIRSET — when the real parts of a vector of complex numbers are set on every path, so are the imaginary parts.
+//
+// The arbitrary-precision encoder keeps its scratch vector of `*bignum.Complex` ([2]*big.Float) between calls. An arm
+// of the input type switch that stores `buff[i][0]` for a real-valued input and forgets `buff[i][1].SetFloat64(0)`
+// encodes the imaginary parts of the previous call; the decoder that accumulated onto `values[i][1]` instead of setting
+// it was the same defect (5.1).
+//
+// Rule: per unit (each arm of a type switch that is a direct statement of the function, else the whole body), with
+// loops taken as executed and if/else arms intersected: for every vector X of complex pairs, component 0 of X's
+// elements is set on all paths exactly when component 1 is (a store `X[i][k] = …`, an in-place big.Float method on
+// `X[i][k]`, or an operation on the whole element `X[i].Set(…)`, `X[i] = …` sets both).
+func scanPairSet(c *core.Ctx) []ob {
+	var out []ob
+	n := 0
+	isPair := func(t types.Type) bool {
+		if t == nil {
+			return false
+		}
+		if a, ok := deref(t).Underlying().(*types.Array); ok && a.Len() == 2 {
+			return strings.Contains(a.Elem().String(), "big.Float")
+		}
+		return false
+	}
+	c.FuncDecls(func(pk *packages.Package, file *ast.File, fd *ast.FuncDecl) {
+		if fd.Body == nil || fileIsTestSupport(c.Program, fd.Pos()) || inExamples(pk) {
+			return
+		}
+		info := pk.TypesInfo
+		fkey := core.FuncKey(pk, fd)
+		type set map[string]bool
+		union := func(a, b set) set {
+			r := set{}
+			for k := range a {
+				r[k] = true
+			}
+			for k := range b {
+				r[k] = true
+			}
+			return r
+		}
+		inter := func(a, b set) set {
+			r := set{}
+			for k := range a {
+				if b[k] {
+					r[k] = true
+				}
+			}
+			return r
+		}
+		// stores of one simple statement
+		stmtSets := func(st ast.Node) set {
+			r := set{}
+			mark := func(e ast.Expr, whole bool) {
+				e = unparen(e)
+				if whole {
+					if ie, ok := e.(*ast.IndexExpr); ok && isPair(info.TypeOf(ie)) {
+						r[exprString(ie.X)+"#0"] = true
+						r[exprString(ie.X)+"#1"] = true
+					}
+					return
+				}
+				if ie, ok := e.(*ast.IndexExpr); ok {
+					if inner, ok := unparen(ie.X).(*ast.IndexExpr); ok && isPair(info.TypeOf(inner)) {
+						if tv, ok := info.Types[ie.Index]; ok && tv.Value != nil {
+							r[exprString(inner.X)+"#"+tv.Value.ExactString()] = true
+						}
+					}
+				}
+			}
+			ast.Inspect(st, func(y ast.Node) bool {
+				switch v := y.(type) {
+				case *ast.FuncLit:
+					return false
+				case *ast.AssignStmt:
+					for _, l := range v.Lhs {
+						mark(l, false)
+						mark(l, true)
+					}
+				case *ast.CallExpr:
+					if se, ok := unparen(v.Fun).(*ast.SelectorExpr); ok && bigFloatMutators[se.Sel.Name] {
+						// `x.Mul(x, h)` updates x from its own value: not a set (the other component is scaled or not
+						// on the merits of the computation, nothing stale is involved)
+						self := false
+						for _, a := range v.Args {
+							if exprString(a) == exprString(se.X) {
+								self = true
+							}
+						}
+						if !self {
+							mark(se.X, false)
+							mark(se.X, true)
+						}
+					}
+				}
+				return true
+			})
+			return r
+		}
+		var all func(list []ast.Stmt) set
+		all = func(list []ast.Stmt) set {
+			r := set{}
+			for _, st := range list {
+				switch v := st.(type) {
+				case *ast.IfStmt:
+					a := all(v.Body.List)
+					var b set
+					switch e := v.Else.(type) {
+					case *ast.BlockStmt:
+						b = all(e.List)
+					case *ast.IfStmt:
+						b = all([]ast.Stmt{e})
+					default:
+						b = set{}
+					}
+					r = union(r, inter(a, b))
+				case *ast.ForStmt:
+					r = union(r, all(v.Body.List))
+				case *ast.RangeStmt:
+					r = union(r, all(v.Body.List))
+				case *ast.BlockStmt:
+					r = union(r, all(v.List))
+				case *ast.SwitchStmt, *ast.TypeSwitchStmt, *ast.SelectStmt:
+					// not interpreted inside a unit
+				default:
+					r = union(r, stmtSets(st))
+				}
+			}
+			return r
+		}
+		type unit struct {
+			list []ast.Stmt
+			tag  string
+			pos  token.Pos
+		}
+		var units []unit
+		for _, st := range fd.Body.List {
+			if ts, ok := st.(*ast.TypeSwitchStmt); ok {
+				for _, cc := range ts.Body.List {
+					cl := cc.(*ast.CaseClause)
+					var tys []string
+					for _, e := range cl.List {
+						tys = append(tys, exprString(e))
+					}
+					if len(tys) == 0 {
+						tys = []string{"default"}
+					}
+					units = append(units, unit{cl.Body, "/case " + strings.Join(tys, ","), cl.Pos()})
+				}
+			}
+		}
+		if len(units) == 0 {
+			units = []unit{{fd.Body.List, "", fd.Pos()}}
+		}
+		for _, u := range units {
+			a := all(u.list)
+			bases := map[string]bool{}
+			for k := range a {
+				bases[k[:strings.LastIndex(k, "#")]] = true
+			}
+			var names []string
+			for b := range bases {
+				names = append(names, b)
+			}
+			sort.Strings(names)
+			for _, b := range names {
+				n++
+				key := fmt.Sprintf("PAIRSET:%s#%s%s", fkey, b, u.tag)
+				switch {
+				case a[b+"#0"] && a[b+"#1"]:
+					out = append(out, okOb("PAIRSET", key, c.Rel(u.pos), "both components of the elements are set on every path", true))
+				case a[b+"#0"]:
+					out = append(out, violOb("PAIRSET", key, c.Rel(u.pos), fmt.Sprintf("%s%s sets the real parts %s[i][0] on every path but not the imaginary parts %s[i][1]: they keep what the vector held before", fkey, u.tag, b, b)))
+				default:
+					out = append(out, violOb("PAIRSET", key, c.Rel(u.pos), fmt.Sprintf("%s%s sets the imaginary parts %s[i][1] on every path but not the real parts %s[i][0]: they keep what the vector held before", fkey, u.tag, b, b)))
+				}
+			}
+		}
+	})
+	c.Stats["pairset_units"] = n
+	return out
+}
+
+func init() {
+	core.Register(&core.Rule{Name: "PAIRSET", Props: []string{"C07", "C09", "C10"},
+		Doc: "per arm of a top-level type switch (else per function), loops taken as executed and if/else arms intersected: a vector of complex pairs ([2]*big.Float elements) whose component 0 is set on all paths has its component 1 set on all paths too, and conversely",
+		Run: func(c *core.Ctx) []ob {
+			out := scanPairSet(c)
+			out = append(out, control(c, "PAIRSET", scanPairSet, "lvfixture.fillReal")...)
+			out = append(out, core.Floor("PAIRSET", nil, "vectors of complex pairs set component-wise", c.Stats["pairset_units"], 6)...)
+			return out
+		}})
+}
